@@ -3,6 +3,7 @@ package props
 import (
 	"fmt"
 	"path/filepath"
+	"sort"
 	"strings"
 
 	"verif/core"
@@ -46,6 +47,7 @@ func runC01(r *core.Run) (bool, string) {
 	r.Set("directed_packages", len(dp))
 	replayWitnesses(r, goose, "C01", tvOptions{}, c01Failing)
 	c01Matrix(r, goose)
+	c01Statements(r, goose)
 	rng := core.NewRng(r.Seed, "c01-random")
 	nb := r.Pick(3, 60)
 	perBatch := r.Pick(14, 40)
@@ -195,4 +197,54 @@ func c01Matrix(r *core.Run, goose string) {
 	r.Set("matrix_cells_rejected_by_goose", nrej)
 	r.Set("matrix_cells_accepted_and_faithful", nok)
 	r.Set("matrix_verdicts", verdicts)
+}
+
+// c01Statements: every supported statement kind at every position / context of the host
+// functions (the statement × context × position matrix).
+func c01Statements(r *core.Run, goose string) {
+	var pk []*gen.Package
+	for _, a := range gen.InsideAtoms {
+		pk = append(pk, gen.AtomPackage("i_", a))
+	}
+	pkgs := pruneToCompile(r, filepath.Join(r.Scratch, "c01-stmt-prune"), pk)
+	if pkgs == nil {
+		fmt.Println("statement matrix does not compile (framework defect)")
+		r.Inconclusive("statement-matrix-does-not-compile")
+		return
+	}
+	var gp []*gorun.Pkg
+	for _, p := range pkgs {
+		gp = append(gp, &gorun.Pkg{Name: p.Name, Files: map[string]string{p.Name + ".go": p.Source}})
+	}
+	res, err := tvBatch(r, filepath.Join(r.Scratch, "c01-stmt"), goose, gp, tvOptions{PerPackage: true})
+	if err != nil {
+		fmt.Println("statement matrix batch:", err)
+		r.Inconclusive("statement-matrix-batch-failed")
+		return
+	}
+	verdicts := map[string]string{}
+	for _, p := range res {
+		atom := strings.TrimPrefix(p.Name, "i_")
+		judgeRejectedOrFaithful(r, p, verdicts, "c01-stmt-", func(fn string) (string, string, bool) {
+			if strings.HasPrefix(fn, "host_") {
+				return atom, strings.TrimPrefix(fn, "host_"+atom+"_"), true
+			}
+			return "", "", false
+		})
+	}
+	nrej, nok := 0, 0
+	rejected := []string{}
+	for k, v := range verdicts {
+		if strings.HasPrefix(v, "rejected") {
+			nrej++
+			rejected = append(rejected, k)
+		} else if strings.HasPrefix(v, "accepted") {
+			nok++
+		}
+	}
+	sort.Strings(rejected)
+	r.Set("statement_cells", len(verdicts))
+	r.Set("statement_cells_rejected_by_goose", nrej)
+	r.Set("statement_cells_rejected_list", rejected)
+	r.Set("statement_cells_accepted_and_faithful", nok)
 }
